@@ -384,9 +384,12 @@ def cases_c09(tier, seed):
         exh = _graphs(3, V[:2], P[:2])
         nbig, big_shape, e_per_graph = 110, (4, 3, 2), 4
     else:
-        exh = _graphs(3, V[:3], P[:2]) + [g for g in _graphs(4, V[:2], P[:2]) if len(g) == 4]
-        nbig, big_shape, e_per_graph = 700, (5, 4, 3), 5
+        exh = _graphs(3, V[:3], P[:2])
+        four = [g for g in _graphs(4, V[:2], P[:2]) if len(g) == 4]
+        nbig, big_shape, e_per_graph = 700, (5, 4, 3), 6
     graphs = [(g, True) for g in exh]
+    if not quick:
+        graphs += [(g, False) for g in four]  # every 4-factor graph, seeded eliminate sets
     for _ in range(nbig):
         nf = int(rs.randint(3, big_shape[0] + 1))
         nv = int(rs.randint(2, big_shape[1] + 1))
@@ -422,7 +425,7 @@ def cases_c09(tier, seed):
                     cases.append(dict(kind="plated", sr=sr, factors=facs, plates=[p for p in P if p in names], sizes=dict(sizes), eliminate=list(E)))
     bounds = dict(
         semirings=srs,
-        exhaustive_graphs="every plated factor graph up to renaming with <= 3 factors over <= %d variables and <= 2 plates%s: %d graphs, every eliminate subset of the used names" % (2 if quick else 3, "" if quick else " plus every 4-factor graph over 2 variables / 2 plates", len(exh)),
+        exhaustive_graphs="every plated factor graph up to renaming with <= 3 factors over <= %d variables and <= 2 plates%s: %d graphs, every eliminate subset of the used names" % (2 if quick else 3, "" if quick else " (plus every 4-factor graph over 2 variables / 2 plates with the full and 5 seeded eliminate sets)", len(exh)),
         sampled_graphs="%d seeded graphs with <= %d factors, <= %d variables, <= %d plates, full elimination + %d seeded eliminate sets each" % (nbig, big_shape[0], big_shape[1], big_shape[2], e_per_graph - 1),
         sizes="every variable / plate size in 1..3 (seeded, P(2)=0.6)",
         functions=["sum_product", "partial_sum_product", "modified_/dynamic_partial_sum_product with empty steps", "partial_sum_product twice for every admissible split (E1|E2)", "einsum(plates=...) and naive_plated_einsum (numpy, numpy_log, numpy_map)", "sum_product(plate_to_scale={p:2} / {p:3,q:2})", "sum_product(pedantic=True) raises iff a preserved variable lives in an eliminated plate"],
